@@ -1131,15 +1131,28 @@ def gen_setscale(rng, which=None):
         prob = _gen_where(GENS["fblock"], rng, lambda c: c["W"] is None)
         s0 = prob["scale"]
     s1 = float(rng.choice([v for v in (0.25, 0.5, 1.0, 2.0, 4.0) if v != s0]))
-    return {"kind": "setscale", "solver": which, "problem": prob, "scale1": s1}
+    case = {"kind": "setscale", "solver": which, "problem": prob, "scale1": s1}
+    if rng.integers(0, 3) == 0:
+        # round 5: instead of the scale, the measurement f.y is replaced after construction (and one solve): compute_rhs must read the
+        # CURRENT f.y at every solve, for every solver class (nothing on the left-hand side depends on y)
+        yold = prob["f"]["y"] if "f" in prob else prob["y"]
+        ynew = tolist(lu.rnd(rng, np.array(yold).shape[:1] if not prob["cplx"] else (len(yold),), prob["cplx"], False))
+        if which == "circ":
+            ynew = tolist(lu.rnd(rng, tuple(prob["shape"]), prob["cplx"], False))
+        case.update(mode="sety", ynew=ynew, scale1=s0)
+    return case
 
 
-def _with_scale(prob, s1):
+def _with_scale(prob, s1, ynew=None):
     q = json.loads(json.dumps(prob))
     if "f" in q and q["f"] is not None:
         q["f"]["scale"] = s1
+        if ynew is not None:
+            q["f"]["y"] = ynew
     else:
         q["scale"] = s1
+        if ynew is not None:
+            q["y"] = ynew
     return q
 
 
@@ -1147,26 +1160,36 @@ def _impl_setscale(case):
     _setup()
     jnp = _S["jnp"]
     which, prob, s1 = case["solver"], case["problem"], case["scale1"]
-    now = _with_scale(prob, s1)
+    sety = case.get("mode") == "sety"
+    now = _with_scale(prob, s1, case.get("ynew"))
+
+    def change(admm, x0):
+        if sety:
+            sv.solve(x0)  # one solve with the old measurement first
+            shp = np.array(admm.f.y).shape
+            admm.f.y = jnp.array(_arr(case["ynew"], prob["cplx"]).reshape(shp), dtype=_dt(prob["cplx"]))
+        else:
+            admm.f.set_scale(s1)
+
     try:
         sv = _new_solver(which)
         if which in ("linear-scico", "linear-jax", "matrix", "generic"):
             cplx = prob["cplx"]
             admm = _build_dense(prob, sv)
-            admm.f.set_scale(s1)
+            change(admm, jnp.array(_arr(prob["x0"], cplx), dtype=_dt(cplx)))
             x = np.array(sv.solve(jnp.array(_arr(prob["x0"], cplx), dtype=_dt(cplx))))
             H, q, *_ = _dense_numpy(now)
             res = _relres(H @ x, q)
         elif which == "circ":
             sv.ndims = len(prob["shape"])
             admm, sv, Aop, C_list = _build_circ(prob, sv)
-            admm.f.set_scale(s1)
+            change(admm, admm.x)
             x = sv.solve(admm.x)
             res = _circ_residual(now, admm, Aop, C_list, x)
             x = np.array(x)
         else:
             admm, sv, AA, C_list = _build_block(prob, sv)
-            admm.f.set_scale(s1)
+            change(admm, admm.x)
             x = sv.solve(admm.x)
             res = _block_documented(now, admm, AA, C_list, x)
             x = np.array(x)
@@ -1232,7 +1255,9 @@ def run_setscale(ctx, model, case):
     if "err" in im:
         ctx.disagree("c10.setscale.error", case, {"err": im["err"], "msg": im["msg"]}, "ok", oracle=oracle_setscale)
         return
-    stale_class = which in _SS_STALE and ctx.is_known("stale-scale-after-init")
+    sety = case.get("mode") == "sety"
+    ctx.count("setscale:mode=" + ("sety" if sety else "set_scale"))
+    stale_class = which in _SS_STALE and ctx.is_known("stale-scale-after-init") and not sety
     if stale_class:
         # the code as it is: operator of the scale at construction, right-hand side of the current scale (model `staleScaleSystem`)
         mcols, mrhs = _stale_model(model, case)
@@ -1243,7 +1268,7 @@ def run_setscale(ctx, model, case):
             return
     if im["res"] > _ss_tol(case):
         ctx.disagree("c10.setscale.normal-equations", case, im["res"], 0.0, oracle=oracle_setscale,
-                     known_id="stale-scale-after-init" if which in _SS_STALE else None)
+                     known_id="stale-scale-after-init" if (which in _SS_STALE and not sety) else None)
 
 
 STALE_WITNESS = {"kind": "setscale", "solver": "matrix", "scale1": 2.0,
@@ -1359,15 +1384,84 @@ def findings(ctx, model):
                           "" if r is None else f"x-step residual {r.get('relative_residual_of_normal_equations'):.3g}, accuracy reported {r.get('accuracy_reported'):.1e}")
 
 
+class _Collect:
+    """stand-in for the run context inside the targeted panel: the first disagreement is kept as the failing input"""
+
+    def __init__(self, ctx):
+        self.ctx, self.hit = ctx, None
+
+    def count(self, *a, **k):
+        pass
+
+    def case(self, *a, **k):
+        pass
+
+    def is_known(self, x):
+        return self.ctx.is_known(x)
+
+    def disagree(self, op, case, impl, model, oracle=None, known_id=None):
+        if known_id and self.ctx.is_known(known_id):
+            return
+        if self.hit is None:
+            r = oracle(case) if oracle else None
+            self.hit = {"case": case, "failing": r if r else {"op": op, "implementation": impl, "documented_behaviour_(model_with_its_tables)": model}}
+
+
+def _targeted(ctx, model):
+    """a generated obligation no longer checks: aim the search at the solver classes whose table rows differ between source and model"""
+    import linsolve_translate
+
+    rows = linsolve_translate.diff_rows(model.call("tables"))
+    ctx.extra["changed_table_rows"] = [list(r) for r in rows]
+    col = _Collect(ctx)
+    for kind, name in rows:
+        cls = name.split(".")[0]
+        if cls == "LinearSubproblemSolver" and kind in ("kwdicts", "defaults"):
+            for i in range(12):
+                want = STRATA["kwhist"]
+                case = _gen_where(gen_kwhist, ctx.rng, want[i % len(want)])
+                ctx.count("search:targeted:kwhist")
+                r = oracle_kwhist(case)
+                if r is not None:
+                    return {"case": case, "failing": r}
+                run_kwhist(col, model, case)
+                if col.hit:
+                    return col.hit
+        elif kind == "checks":
+            for _ in range(120):
+                case = gen_classcheck(ctx.rng)
+                case["solver"] = cls
+                ctx.count("search:targeted:classcheck")
+                run_classcheck(col, model, case)
+                if col.hit:
+                    return col.hit
+        elif cls in ("MatrixSubproblemSolver", "MatrixATADSolver") or kind == "woodbury":
+            for _ in range(20):
+                case = gen_dense(ctx.rng)
+                ctx.count("search:targeted:dense")
+                r = oracle_dense(case)
+                if r is not None:
+                    return {"case": case, "failing": r}
+                run_dense(col, model, case)
+                if col.hit:
+                    return col.hit
+    return None
+
+
 def search(ctx, model, why):
     _setup()
+    _tables(model)
+    if why is not None:
+        hit = _targeted(ctx, model)
+        if hit:
+            return hit
     for kind, orc in ORACLES.items():
         q, t = BUDGET[kind]
         for _ in range(max(6, ctx.n(q, t) // 4)):
             case = GENS[kind](ctx.rng)
             if kind in ("fblock", "g0") and _block_known(case) and ctx.is_known(_block_known(case)):
                 continue
-            if kind == "setscale" and case["solver"] in _SS_STALE and ctx.is_known("stale-scale-after-init"):
+            if kind == "setscale" and case["solver"] in _SS_STALE and case.get("mode") != "sety" and ctx.is_known("stale-scale-after-init"):
                 continue
             if kind == "dense" and ctx.is_known("matrix-mixed") and 1 < len({t["kind"] for t in case["terms"]}) and any(
                     t["kind"] == "matrix" for t in case["terms"]):
